@@ -241,3 +241,65 @@ Proof.
   - change ov_fuel with (S (S memfs_max_links)). simpl ov_open. rewrite E. reflexivity.
   - unfold ov_remove. rewrite E. reflexivity.
 Qed.
+
+(* ---- cachePackage's names and retrieveAndSaveFile's temporary file ------------------------------------ *)
+
+Lemma cp_suffixes_ok : forall i, i < 3 -> no_slash (cp_suffix i) /\ 2 < List.length (cp_suffix i).
+Proof.
+  intros i L. destruct i as [|[|[|i]]]; try lia; (split; [apply no_slashb_iff; reflexivity | vm_compute; lia]).
+Qed.
+
+(* the data member's suffix ends with the trimmed literal *)
+Definition cp_tar_suffix : str := trim_suffix (cp_suffix 2) (la cachepackage_tar_trim).
+Lemma cp_dat_split : cp_suffix 2 = cp_tar_suffix ++ la cachepackage_tar_trim.
+Proof. reflexivity. Qed.
+
+Theorem cache_package_dsts_confined : forall cacheDir ctl dat p, is_abs cacheDir = true ->
+  forallb is_hex_char ctl = true -> forallb is_hex_char dat = true ->
+  In p (cache_package_dsts cacheDir ctl dat) ->
+  under cacheDir p /\ exists n, proper n /\ cc p = cc cacheDir ++ [n].
+Proof.
+  intros b ctl dat p HB FC FD I.
+  assert (ADV : forall h i, forallb is_hex_char h = true -> i < 3 ->
+            under b (advertised_name b h (cp_suffix i)) /\
+            exists n, proper n /\ cc (advertised_name b h (cp_suffix i)) = cc b ++ [n]).
+  { intros h i F L. destruct (cp_suffixes_ok i L) as [NS LN].
+    destruct (advertised_name_confined b h _ HB F NS LN) as [U C]. split; [exact U|].
+    exists (h ++ cp_suffix i). split; [apply hex_name_proper; assumption | exact C]. }
+  destruct I as [I|[I|[I|[I|[]]]]]; subst p; try (apply ADV; [assumption | lia]).
+  (* the tar: the data member's name without the trimmed literal *)
+  assert (NT : no_slash cp_tar_suffix) by (apply no_slashb_iff; reflexivity).
+  assert (LT : 2 < List.length cp_tar_suffix) by (vm_compute; lia).
+  pose proof (hex_name_proper dat _ FD NT LT) as PT.
+  destruct (cp_suffixes_ok 2 ltac:(lia)) as [NS LN].
+  pose proof (hex_name_proper dat _ FD NS LN) as PD.
+  assert (EQ : trim_suffix (advertised_name b dat (cp_suffix 2)) (la cachepackage_tar_trim) = join [b; dat ++ cp_tar_suffix]).
+  { unfold advertised_name.
+    etransitivity; [apply (f_equal (fun z => trim_suffix z (la cachepackage_tar_trim))); apply (join_proper_string b _ HB PD)|].
+    etransitivity; [|symmetry; apply (join_proper_string b _ HB PT)].
+    replace (dir_prefix b ++ dat ++ cp_suffix 2) with ((dir_prefix b ++ dat ++ cp_tar_suffix) ++ la cachepackage_tar_trim).
+    - apply trim_suffix_app.
+    - rewrite cp_dat_split, <- !app_assoc. reflexivity. }
+  rewrite EQ. destruct (join_name_cc b _ HB PT) as [A C].
+  split; [eapply under_snoc; [assumption | exact A | exact C]|].
+  exists (dat ++ cp_tar_suffix). split; assumption.
+Qed.
+
+(* retrieveAndSaveFile: for a cache file <d>/<one proper component> (what cacheFileFromEtag
+   returns: c18_etag_safe) the directory made, the temporary file and the advertised name
+   are all at or below <d> *)
+Theorem retrieve_creates_confined : forall d n r p, is_abs d = true -> proper n -> digits_ok r = true ->
+  In p (retrieve_creates (join [d; n]) r) -> under d p.
+Proof.
+  intros d n r p HD P D I. unfold retrieve_creates in I.
+  pose proof (join_proper_string d n HD P) as E.
+  destruct (dir_of_member d n HD (proper_no_slash _ P)) as [AD CD]. rewrite <- E in AD, CD.
+  destruct I as [I|I].
+  - subst p. eapply under_snoc with (l := []); [assumption | exact AD | rewrite app_nil_r; exact CD].
+  - apply in_app_or in I. destruct I as [I|[I|[]]].
+    + destruct (temp_path (dir (join [d; n])) retrieve_tmp_pattern r) as [t|] eqn:T; [|contradiction].
+      destruct I as [I|[]]. subst p.
+      destruct (temp_path_in_dir _ _ r t AD T D) as [m [Pm [At Ct]]].
+      eapply under_snoc; [assumption | exact At | rewrite Ct, CD; reflexivity].
+    + subst p. destruct (join_name_cc d n HD P) as [A C]. eapply under_snoc; [assumption | exact A | exact C].
+Qed.
